@@ -119,6 +119,7 @@ NEEDED_PLAN = [
     "plan_jobs_morx_components_left_at_end_of_text", "plan_jobs_morx_ctx_dont_advance_chain",
     "plan_jobs_morx_dont_advance_cycle", "plan_jobs_morx_dont_advance_chain_terminating",
     "plan_jobs_morx_index_at_table_end", "plan_jobs_morx_deleted_glyph", "plan_jobs_morx_random_program",
+    "plan_jobs_morx_header_count_or_length_lies",
 ]
 
 FAMILY = {"arab": "Arabic", "syrc": "Syriac", "khmr": "Khmer", "mymr": "Myanmar", "mym2": "Myanmar",
